@@ -28,9 +28,12 @@ type c20Case struct {
 	Tok  []int    `json:"tok,omitempty"`
 	Src  string   `json:"src"`
 	Over []string `json:"over,omitempty"`
+	Site bool     `json:"site,omitempty"` // the content filesystem also holds a site: layouts/base.vuego, theme.yml, data/*.yml
 }
 
-func (c *c20Case) Key() string { return c.Part + "|" + c.Src + "|" + strings.Join(c.Over, ",") }
+func (c *c20Case) Key() string {
+	return c.Part + "|" + c.Src + "|" + strings.Join(c.Over, ",") + fmt.Sprint(c.Site)
+}
 
 var c20Inline = []string{"w", " ", "*", "**", "_", "`code`", `[t](u "ti")`, "![a](s)", "<http://x.y>", "<b>", "&amp;", "&copy;", "<", "&", `\*`, `\<`, "{{ x }}", "  \n", "~~", "a < b", "\n", "`a\nb`", "`x\\|y`", `[e](u\_x "t\*")`, `[q](http://a.b/?x=1&amp;y=2 "a &amp; b")`, "![a *b* <c> &amp;](s)", "<!-- c -->", "www.ex.org/p", "https://pl.ex.net/y?a=1&b=2", "<dev@ex.com>", "me@ex.org", "![a `c\\*d` &amp;](s)", "[l `c\\*d`](u)", "&nbsp;", "[f](false)", "[m](a{{x}}b \"t{{ x }}\")"}
 
@@ -195,6 +198,14 @@ func (c *c20Case) Run(ctx *core.Ctx) {
 			}
 			content["markdown/"+name+".vuego"] = &fstest.MapFile{Data: []byte(c20Mark(string(b), name)), ModTime: baseTime}
 		}
+		if c.Site {
+			// the content filesystem is a whole site: its layouts, config and pages are not templates of Markdown elements
+			content["layouts/base.vuego"] = &fstest.MapFile{Data: []byte(`<html><body class="site" v-html="content"></body></html>`), ModTime: baseTime}
+			content["theme.yml"] = &fstest.MapFile{Data: []byte("href: THEME-HREF\ncontent: THEME-CONTENT\nlevel: 9\ncode: THEME-CODE\n"), ModTime: baseTime}
+			content["data/site.yml"] = &fstest.MapFile{Data: []byte("title: DATA-TITLE\nsrc: DATA-SRC\n"), ModTime: baseTime}
+			content["markdown/unrelated.vuego"] = &fstest.MapFile{Data: []byte(`<p>unrelated</p>`), ModTime: baseTime}
+			content["paragraph.vuego"] = &fstest.MapFile{Data: []byte(`<p class="not-a-markdown-template">x</p>`), ModTime: baseTime}
+		}
 		ctx.Eval(2)
 		base, err0 := mdRender(nil, c.Src)
 		out, err := mdRender(content, c.Src)
@@ -358,6 +369,7 @@ func init() {
 			if tier == "thorough" {
 				sizes = func(k int) bool { return k <= 3 || k >= n-2 }
 			}
+			emit(&c20Case{Part: "override", Src: allConstructs, Site: true})
 			for mask := 1; mask < 1<<n; mask++ {
 				k := 0
 				for i := 0; i < n; i++ {
@@ -375,6 +387,9 @@ func init() {
 					}
 				}
 				emit(&c20Case{Part: "override", Src: allConstructs, Over: over})
+				if k <= 1 || k == n {
+					emit(&c20Case{Part: "override", Src: allConstructs, Over: over, Site: true})
+				}
 			}
 		},
 	})
